@@ -148,6 +148,7 @@ func childBuild(specFile, outFile string) {
 type Plan struct {
 	Order   []string `json:"order"`   // block names delivered through AddBlockOnChain
 	Restart bool     `json:"restart"` // boot over an existing directory (no deliveries unless Order given)
+	ArmBoot bool     `json:"arm_boot"` // the store writes of the FIRST boot (genesis creation) are crash points too
 }
 
 type TxObs struct {
@@ -262,8 +263,8 @@ func childRun(treeFile, planFile, outFile string) {
 	mustRead(treeFile, &tree)
 	mustRead(planFile, &plan)
 	crash.InstallFromEnv()
-	if plan.Restart {
-		crash.Arm() // the writes of the recovery path itself are crash points too (nested crash)
+	if plan.Restart || plan.ArmBoot {
+		crash.Arm() // the writes of the recovery path itself (and of the first boot) are crash points too
 	}
 	if err := node.Boot(c05Forks, true); err != nil {
 		panic(err)
